@@ -486,6 +486,79 @@ def parse_doc_tables(rst):
     return out
 
 
+def ragged_examples(path, funcs):
+    """In every ragged composer: the if / elif / else chain that picks the example `(k, position)`
+    from `len(dra)`.  Returns {language key: [(op, bound, k, word) ..., (None, None, k, word)]}."""
+    tree = ast.parse(path.read_text(encoding='utf-8'))
+    defs = {n.name: n for n in tree.body if isinstance(n, ast.FunctionDef)}
+    out = {}
+    for key, fname in funcs:
+        if fname not in defs:
+            raise Unsupported(f"readcoderaggedarray.{fname} not found")
+        chain = None
+        for node in ast.walk(defs[fname]):
+            if isinstance(node, ast.If) and _is_example_assign(node.body):
+                chain = node
+                break
+        if chain is None:
+            raise Unsupported(f"{fname}: no `k, position = ...` selection on len(dra)")
+        rows = []
+        node = chain
+        while True:
+            t = node.test
+            if not (isinstance(t, ast.Compare) and len(t.ops) == 1 and isinstance(t.left, ast.Call)
+                    and isinstance(t.left.func, ast.Name) and t.left.func.id == 'len'
+                    and len(t.left.args) == 1 and isinstance(t.left.args[0], ast.Name) and t.left.args[0].id == 'dra'
+                    and isinstance(t.comparators[0], ast.Constant) and isinstance(t.comparators[0].value, int)):
+                raise Unsupported(f"{fname}: example selection tests something else than len(dra) <op> int")
+            op = {ast.Gt: '>', ast.Eq: '==', ast.GtE: '>=', ast.Lt: '<', ast.LtE: '<='}.get(type(t.ops[0]))
+            if op is None:
+                raise Unsupported(f"{fname}: comparison operator")
+            k, w = _example_values(node.body, fname)
+            rows.append((op, t.comparators[0].value, k, w))
+            if len(node.orelse) == 1 and isinstance(node.orelse[0], ast.If):
+                node = node.orelse[0]
+                continue
+            if not _is_example_assign(node.orelse):
+                raise Unsupported(f"{fname}: example selection has no final else")
+            k, w = _example_values(node.orelse, fname)
+            rows.append((None, None, k, w))
+            break
+        out[key] = rows
+    return out
+
+
+def _is_example_assign(body):
+    return (len(body) == 1 and isinstance(body[0], ast.Assign) and len(body[0].targets) == 1
+            and isinstance(body[0].targets[0], ast.Tuple)
+            and [getattr(e, 'id', None) for e in body[0].targets[0].elts] == ['k', 'position'])
+
+
+def _example_values(body, fname):
+    v = body[0].value
+    if not (isinstance(v, ast.Tuple) and len(v.elts) == 2 and all(isinstance(e, ast.Constant) for e in v.elts)
+            and isinstance(v.elts[0].value, int) and isinstance(v.elts[1].value, str)):
+        raise Unsupported(f"{fname}: example values are not literals")
+    return v.elts[0].value, v.elts[1].value
+
+
+def emit_ragged_examples(ex):
+    cmp = {'>': lambda b: f"Z.ltb {b} n", '==': lambda b: f"Z.eqb n {b}", '>=': lambda b: f"Z.leb {b} n",
+           '<': lambda b: f"Z.ltb n {b}", '<=': lambda b: f"Z.leb n {b}"}
+    lines = ["(* the example `(k, position)` every ragged composer picks from len(dra) *)",
+             "Definition ragged_example (l : string) (n : Z) : Z * string :="]
+    for key, rows in ex.items():
+        body = ""
+        for op, b, k, w in rows:
+            if op is None:
+                body += f"({k}, {coq_str(w)})"
+            else:
+                body += f"if {cmp[op](b)} then ({k}, {coq_str(w)}) else "
+        lines.append(f"  if String.eqb l {coq_str(key)} then {body} else")
+    lines.append('  (0, "").\n')
+    return "\n".join(lines)
+
+
 def gen_tables(repo):
     rc = module_literals(repo / 'darr/readcodearray.py')
     nt = module_literals(repo / 'darr/numtype.py')
@@ -534,6 +607,7 @@ def gen_tables(repo):
     fk = dict_keys(repo / 'darr/readcoderaggedarray.py', 'readcodefunc')
     out.append("Definition readcodefunc_ragged : list (string * string) :=\n [" +
                ";\n  ".join(f"({coq_str(k)}, {coq_str(v)})" for k, v in fk) + "].\n")
+    out.append(emit_ragged_examples(ragged_examples(repo / 'darr/readcoderaggedarray.py', fk)))
     la = languages_tuple(repo / 'darr/array.py', 'readcodetxt')
     out.append("Definition readme_languages_array : list (string * string) :=\n [" +
                ";\n  ".join(f"({coq_str(h)}, {coq_str(k)})" for h, k in la) + "].\n")
